@@ -28,7 +28,7 @@ HOLE if b else c|a if HOLE else c|a if b else HOLE
 (HOLE for i in j)|(e for i in HOLE)|(e for i in j if HOLE)|(e for i in j for k in HOLE)
 await HOLE|(yield HOLE)|(yield from HOLE)
 HOLE < b|a < b == HOLE|a in HOLE not in c|a is HOLE is not c|not HOLE < b|a < HOLE|a < HOLE < c|a < b < HOLE|HOLE is b|a is not HOLE|HOLE in b|a not in HOLE|a == HOLE|HOLE != b|a >= HOLE|HOLE <= b
-HOLE()|f(**HOLE, k=1)|f(**a, k=HOLE)|f(k=1, *HOLE)|f(*a, k=1, *HOLE)|f(**a, **HOLE)|f(a, **b, k=HOLE, **c)|f(HOLE)|f(HOLE, b)|f(a, HOLE)|f(*HOLE)|f(a, *HOLE)|f(k=HOLE)|f(**HOLE)|f(a, k=HOLE)|f(k=1, *HOLE)|f(*a, HOLE)|f(k=1, **HOLE)|f(HOLE for i in j)|f(j=1, k=HOLE)|HOLE(a)|HOLE(k=1)
+HOLE()|f(HOLE, k=1)|f(HOLE, **kw)|f(HOLE, k=1, **kw)|f(**HOLE, k=1)|f(**a, k=HOLE)|f(k=1, *HOLE)|f(*a, k=1, *HOLE)|f(**a, **HOLE)|f(a, **b, k=HOLE, **c)|f(HOLE)|f(HOLE, b)|f(a, HOLE)|f(*HOLE)|f(a, *HOLE)|f(k=HOLE)|f(**HOLE)|f(a, k=HOLE)|f(k=1, *HOLE)|f(*a, HOLE)|f(k=1, **HOLE)|f(HOLE for i in j)|f(j=1, k=HOLE)|HOLE(a)|HOLE(k=1)
 f'{HOLE}'|f'{HOLE!r}'|f'{HOLE:>10}'|f'{a:{HOLE}}'|f'{a:x{HOLE}y}'|f'p{HOLE}q{b}'|f'{HOLE!s:>{w}}'|f'{a:{w}{HOLE}}'|f'{HOLE!a}'
 HOLE.attr|HOLE[i]|a[HOLE]|a[HOLE:]|a[:HOLE]|a[::HOLE]|a[HOLE:b:c]|a[HOLE::c]|a[:HOLE:c]|a[::HOLE, b]|a[HOLE:b, c:d]|a[b:c, d:HOLE:e]|a[..., HOLE]|a[b:HOLE:c]|a[b:c:HOLE]|a[HOLE, b]|a[b, HOLE]|a[HOLE,]|a[*HOLE]|a[b:c, HOLE]|a[HOLE:b, c]|a[b, c:HOLE]|a[b, ::HOLE]
 """.replace("\n", "|").strip("|").split("|")
@@ -144,7 +144,7 @@ def maximal_expressions(tree):
 
 PAIR_TEMPLATES = ["H1 %s H2" % op for op in ("+", "-", "*", "@", "/", "//", "%", "**", "<<", ">>", "&", "^", "|")] + [
     "H1 and H2", "H1 or H2", "H1 < H2", "H1 in H2", "H1 if H2 else c", "a if H1 else H2", "H1 if b else H2", "H1[H2]",
-    "H1(H2)", "f(H1, k=H2)", "f(*H1, **H2)", "f(**H1, k=H2)", "f(k=H1, *H2)", "f(**H1, **H2)", "{H1: H2}", "[H1 for i in H2]", "[e for i in H1 if H2]",
+    "H1(H2)", "f(H1, k=H2)", "f(*H1, **H2)", "f(H1, k=H2)", "f(H1, **H2)", "f(**H1, k=H2)", "f(k=H1, *H2)", "f(**H1, **H2)", "{H1: H2}", "[H1 for i in H2]", "[e for i in H1 if H2]",
     "lambda p=H1: H2", "f'{H1:{H2}}'", "f'{H1!r}{H2}'", "H1[H2:]", "a[H1:H2]", "a[H1, H2]", "(H1, H2)", "(x := H1)[H2]",
     "H1 < b < H2", "-H1 ** H2", "H1.attr(H2)", "{**H1, k: H2}", "not H1 == H2", "await H1 ** H2",
 ]
